@@ -283,6 +283,19 @@ static void reschedule(YieldKind k) {
 	G.st.steps++;
 	G.st.yields[k]++;
 	if (G.step > G.p.max_steps) fail("HANG", "step-budget", "step budget exhausted: " + describe_tasks());
+	// fault: the operating system deschedules the running thread right before it takes or right after it released a lock, and
+	// simulated time passes meanwhile (other threads handle whole messages / calls). Check-then-act and use-after-unlock windows
+	// are a handful of steps wide; random task choice alone almost never keeps a task parked inside one for long enough.
+	// The decision is a pure function of (run seed, step), so replays by decision list see the same injections.
+	bool parked = false;
+	if (G.p.preempt_permille && (k == Y_UNLOCK || k == Y_LOCK) && cur->st == T_RUNNABLE && G.now >= G.p.preempt_from_us) {
+		uint64_t hseed = G.p.seed ^ (G.step * 0xD1B54A32D192ED03ULL) ^ 0x5bd1e995;
+		uint64_t hx = Rng::splitmix(hseed);
+		if (hx % 1000 < G.p.preempt_permille) {
+			cur->wake = grid_round(G.now + 1 + (hx >> 20) % ((uint64_t) G.p.preempt_max_us + 1));
+			cur->st = T_SLEEPING; parked = true; G.st.preempt_injected++;
+		}
+	}
 	int run[MAX_TASKS];
 	int n = 0;
 	for (;;) {
@@ -323,6 +336,7 @@ static void reschedule(YieldKind k) {
 		sim_baton_post(&nx->go);
 		if (cur->st != T_DONE) sim_baton_wait(&cur->go);
 	}
+	if (parked) cur->st = T_RUNNABLE;
 }
 
 void yield(YieldKind k) {
